@@ -727,3 +727,42 @@ Proof.
   eexists. eexists. eexists. split; [vm_compute; reflexivity|]. split; [left; reflexivity|].
   split; [reflexivity|]. split; [reflexivity|]. eexists. split; vm_compute; reflexivity.
 Qed.
+
+(* ------------------------------------------------------------------------- *)
+(* Part D: one entry per batch member, tied to the JSON value *)
+
+Lemma tree_parse d c : cwf d c = true -> parse (ctext c []) = Some (cst_json c).
+Proof.
+  intros Hwf. pose proof (ctext_PV d c [] Hwf I) as Hpv.
+  unfold parse. rewrite (parse_doc_PV _ _ (PV_depth _ 0 _ _ _ Hpv (N.le_0_l d))). reflexivity.
+Qed.
+
+Theorem member_correspondence : forall s xs, parse s = Some (JArr xs) ->
+  exists raws, split_msgs s = Some (true, raws) /\ Forall2 (fun r x => parse r = Some x) raws xs.
+Proof.
+  intros s xs H. unfold parse in H. destruct (parse_doc s) as [[[w c] w1]|] eqn:E; [|discriminate].
+  injection H as H. destruct c; try discriminate H. cbn [cst_json] in H. injection H as <-.
+  pose proof (proj2 (parse_doc_first_byte _ _ _ _ E) (ex_intro _ w0 (ex_intro _ es eq_refl))) as Hfb.
+  pose proof (parse_doc_wf _ _ _ _ E) as Hwf. rewrite cwf_arr in Hwf. apply andb_true_iff in Hwf as [_ Hes].
+  exists (map (fun e : bytes * cst * bytes => ctext (snd (fst e)) []) es). split.
+  - unfold split_msgs, raw_elements. rewrite Hfb, E. reflexivity.
+  - clear E Hfb. induction es as [|e es IH]; [constructor|]. cbn [forallb map] in *. apply andb_true_iff in Hes as [He Hes].
+    constructor; [|exact (IH Hes)]. unfold elem_wf in He. apply andb_true_iff in He as [He _]. apply andb_true_iff in He as [_ Hc].
+    exact (tree_parse 1 _ Hc).
+Qed.
+
+Theorem member_correspondence_single : forall s x, parse s = Some x -> (forall xs, x <> JArr xs) ->
+  exists raw, split_msgs s = Some (false, [raw]) /\ parse raw = Some x.
+Proof.
+  intros s x H Hx. unfold parse in H. destruct (parse_doc s) as [[[w c] w1]|] eqn:E; [|discriminate]. injection H as <-.
+  assert (Hfb : first_byte s <> 91).
+  { intros Hf. apply (parse_doc_first_byte _ _ _ _ E) in Hf as (w' & es & ->). exact (Hx _ eq_refl). }
+  exists (ctext c []). split.
+  - unfold split_msgs, raw_value. apply N.eqb_neq in Hfb. rewrite Hfb, E. reflexivity.
+  - exact (tree_parse 0 c (parse_doc_wf _ _ _ _ E)).
+Qed.
+
+Example member_correspondence_nonvacuous :
+  parse [32; 91; 49; 44; 32; 123; 125; 32; 93; 10] = Some (JArr [JNum [49]; JObj []]) /\
+  split_msgs [32; 91; 49; 44; 32; 123; 125; 32; 93; 10] = Some (true, [[49]; [123; 125]]).
+Proof. split; vm_compute; reflexivity. Qed.
